@@ -49,6 +49,7 @@ def execute(c):
 
     pix, zones = build(c["steps"], c["shape"], c["dtype"], c.get("shuffle"))
     out = np.float32 if c["bits"] == 24 else np.float64
+    watch = core.Watch(pix, zones)
     if c["api"] == "kernel":
         res = do_mean(pix, zones, c["nz"], ND, ZND, out)
     else:
@@ -65,11 +66,12 @@ def execute(c):
     c["res"] = [[[core.rat(res[t, z, 0]), core.rat(res[t, z, 1])] for z in range(c["nz"])] for t in range(res.shape[0])]
     c["nd"] = str(ND)
     c["znd"] = ZND
+    c["inmod"] = watch.changed()
     return c
 
 
 def tla_case(c):
-    d = {k: c[k] for k in ("tid", "nz", "bits", "res", "nd", "znd")}
+    d = {k: c[k] for k in ("tid", "nz", "bits", "res", "nd", "znd", "inmod")}
     d["steps"] = [[[z, "nan" if v is None else core.rat(v), cnt] for (z, v, cnt) in runs] for runs in c["steps"]]
     return d
 
